@@ -15,8 +15,14 @@ REPLAY = os.path.join(VERIF, "replay")
 NCPU = max(1, min(16, os.cpu_count() or 1))
 ALLOWED_AXIOMS = {"propext", "Classical.choice", "Quot.sound"}
 
-for d in (CACHE, EVID, REPLAY):
+for d in (CACHE, EVID, REPLAY, os.path.join(CACHE, "tmp")):
     os.makedirs(d, exist_ok=True)
+
+# scratch space of one check run: under /verif/.cache (never /tmp), removed when the process exits
+import atexit
+RUN_TMP = tempfile.mkdtemp(prefix="run%d-" % os.getpid(), dir=os.path.join(CACHE, "tmp"))
+os.environ["VERIF_TMP"] = RUN_TMP
+atexit.register(lambda: shutil.rmtree(RUN_TMP, ignore_errors=True))
 
 
 def sh(cmd, **kw):
